@@ -13,14 +13,17 @@ OpLists == {<<>>} \cup {<<a>> : a \in Ops} \cup {<<a, b>> : a \in Ops, b \in Ops
 \* one terminal call, none ("leave": the peer must time out), or two in sequence on the same user thread
 Ends == {"release", "abort", "leave", "release+abort", "abort+abort", "abort+release", "release+release"}
 Double == {"release+abort", "abort+abort", "abort+release", "release+release"}
-AccKinds == {"normal", "handler_abort", "handler_release", "slow"}
+\* notify_abort: a notification handler (EVT_ACSE_RECV) calls abort() when the peer's A-RELEASE-RQ arrives (abort during release)
+AccKinds == {"normal", "handler_abort", "handler_release", "slow", "notify_abort"}
+\* how the acceptor rejects: not at all, called AE title not recognised (source 1), local limit exceeded (source 3)
+Rejects == {"no", "aet", "limit"}
 Sides == {"none", "acc_abort", "acc_release", "req_abort", "req_release"}
 Moments == {"early", "mid", "late"}
 VARIABLE s
-Scenarios == {sc \in [ops : OpLists, end : Ends, acc : AccKinds, side : Sides, moment : Moments, reject : BOOLEAN] :
+Scenarios == {sc \in [ops : OpLists, end : Ends, acc : AccKinds, side : Sides, moment : Moments, reject : Rejects] :
                 /\ (sc.side = "none" => sc.moment = "early")
                 /\ (sc.end \in Double => sc.side = "none")
-                /\ (sc.reject => sc.ops = <<>> /\ sc.side = "none" /\ sc.acc = "normal" /\ sc.end \in {"release", "release+abort"})
+                /\ (sc.reject # "no" => sc.ops = <<>> /\ sc.side = "none" /\ sc.acc = "normal" /\ sc.end \in {"release", "release+abort"})
                 /\ (sc.acc \in {"handler_abort", "handler_release"} => \E k \in 1..Len(sc.ops) : sc.ops[k] = "echo")}
 Init == s \in Scenarios
 Next == FALSE /\ s' = s
